@@ -6,8 +6,8 @@ CONSTANTS
   BatchHdr = 1
   Queues = {0, 1}
   MaxOps = 4
-  MaxPost = 2
-  MaxCrashes = 2
+  MaxPost = 1
+  MaxCrashes = 1
   Policy = "always_flush"
   LossModels = {"process"}
   GcAlwaysSyncs = TRUE
